@@ -108,12 +108,14 @@ def has_cycle(topology, root=0):
 
 
 def cycle_is_guarded(topology):
-    """every edge that lies on a cycle must be a container/optional edge (a `direct` edge on a cycle
-    would be a class that contains itself by value - not constructible)."""
+    """no cycle consists of `direct` edges only (that would be a class containing itself by value - not
+    constructible); a `direct` edge may lie on a cycle that another edge closes through a container/optional
+    (`A.holder: Holder`, `Holder.a: A | None`)."""
     n = len(topology)
+    direct = tuple(tuple((t, k) for t, k in topology[i] if k == "direct") for i in range(n))
     for i in range(n):
-        for t, kind in topology[i]:
-            if kind == "direct" and i in reachable(topology, t):
+        for t, _ in direct[i]:
+            if i in reachable(direct, t):
                 return False
     return True
 
